@@ -30,7 +30,32 @@ let cmd_c06_cur (x : sx) : sx =
   | L [g; areas; a] -> sx_of_result (c06_integrate_cur (counts_of_sx g) (list_of_sx z_of_sx areas) (arr_of_sx a))
   | _ -> failwith "c06_cur: expected ((nface nnode nedge) areas (shape dims name grid data))"
 
+(* (areas mask) -> area of the faces selected by the 0/1 mask *)
+let cmd_c06_mask (x : sx) : sx =
+  match x with
+  | L [areas; mask] -> sx_of_z (c06_mask_sum (list_of_sx z_of_sx areas) (list_of_sx z_of_sx mask))
+  | _ -> failwith "c06_mask: expected (areas mask)"
+
+(* integrate on a grid object with a history: (stored ops (nface nnode nedge) areas a)
+   stored: N | list (what _ds["face_areas"] holds); ops: list of 0 (read face_areas) | (1 list) (assign);
+   areas: compute_face_areas(rule, order) on the current coordinates *)
+let cmd_c06_hist (x : sx) : sx =
+  match x with
+  | L [stored; ops; g; areas; a] ->
+      let ar = list_of_sx z_of_sx areas in
+      let areas_of _ _ = ar in
+      let s0 = { c06_stored_areas = (match stored with A "N" -> None | l -> Some (list_of_sx z_of_sx l)); c06_stored_jac = None } in
+      let ops = list_of_sx (function A "0" -> C06_op_read_face_areas
+                                   | L [A "1"; l] -> C06_op_assign_face_areas (list_of_sx z_of_sx l)
+                                   | L [A "2"] -> C06_op_compute (z_of_int 0, z_of_int 3)
+                                   | _ -> failwith "op") ops in
+      let s = c06_grun areas_of (z_of_int 1) (z_of_int 4) s0 ops in
+      sx_of_result (c06_integrate_grid areas_of (counts_of_sx g) s (z_of_int 1) (z_of_int 4) (arr_of_sx a))
+  | _ -> failwith "c06_hist: expected (stored ops counts areas arr)"
+
 let commands : (string * (sx -> sx)) list = [
   "c06", cmd_c06;
   "c06_cur", cmd_c06_cur;
+  "c06_mask", cmd_c06_mask;
+  "c06_hist", cmd_c06_hist;
 ]
